@@ -46,6 +46,8 @@ def worker(unit, emit):
             xs.append((nm, 'near-miss'))
     xs += [('', 'garbage'), ('0', 'garbage'), ('ABC', 'garbage'), ('12345678901234567890', 'garbage')]
 
+    lits = [L for L in inputs.literals(mod, minlen=2, maxlen=4, cap=60) if L.isalpha() and L.isascii()][:8]
+
     def pairrec(x, xkind, y, how, kw):
         o = ac.opt_id(kw)
         rc = lib.call(mod.compact, x)
@@ -76,6 +78,16 @@ def worker(unit, emit):
         for sep in (' ', '-', '.', ' - '):
             pairrec(x, xkind, sep.join(x), 'stretched %r' % sep, {})
             pairrec(x, xkind, sep.join(x[i:i + 4] for i in range(0, len(x), 4)), 'groups of four %r' % sep, {})
+        # leading zeros dropped / added, and the alphabetic constants of the module source as prefix (country codes, aliases):
+        # spellings that compact() may or may not map to the same number -- D1 only speaks when it does
+        for y, how in ((x.lstrip('0'), 'leading zeros dropped'), ('0' + x, 'zero prefixed'), ('00' + x, 'two zeros prefixed')):
+            if y and y != x:
+                pairrec(x, xkind, y, how, {})
+        for L in lits:
+            pairrec(x, xkind, L + x, 'literal prefix %r' % L, {})
+            if len(L) < len(x):
+                pairrec(x, xkind, L + x[len(L):], 'literal overwrite %r' % L, {})
+                pairrec(x, xkind, L + ' ' + x[len(L):].lstrip(), 'literal overwrite %r' % L, {})
         pairrec(x, xkind, x + ' ' * 80, 'padded right 80', {})
         pairrec(x, xkind, ' ' * 80 + x, 'padded left 80', {})
         for script in scripts1:
